@@ -6,13 +6,13 @@
 
    ssa_correct_partial (proved, [U]): under the same hypotheses plus C11's `semi_nca_ok`, the model returns
    Ok f', and of the conjuncts of ssa_check f f' the following hold: (1) erase_func f' = f (the boolean
-   func_eqb too), struct_ok f', the NoDup half of (2) (every versioned definition is unique); what remains --
-   stated as `remaining f'` -- is: every versioned use is defined, the local consistency of the inferred
-   typing (block_ok / edge_check / entry_ok, i.e. the iterated-dominance-frontier argument) and phi arity;
+   func_eqb too), struct_ok f', the NoDup half of (2) (every versioned definition is unique); phi arity (4) (SsaArity.v);
+   what remains -- stated as `remaining f'` -- is: every versioned use is defined, and the local consistency of the
+   inferred typing (block_ok / edge_check / entry_ok, i.e. the iterated-dominance-frontier argument);
    ssa_check f f' = true <-> remaining f'. *)
 From Coq Require Import ZArith List Bool NArith Lia.
 From Falcon Require Import Base.Res IL.Const IL.Expr IL.Func IL.Loc Exec.Sem
-     SSA.SemSSA SSA.FuncEq SSA.SsaCheck SSA.SsaModel SSA.SsaTotal SSA.SsaFresh.
+     SSA.SemSSA SSA.FuncEq SSA.SsaCheck SSA.SsaModel SSA.SsaTotal SSA.SsaFresh SSA.SsaArity.
 Import ListNotations.
 Local Open Scope Z_scope.
 
@@ -142,14 +142,14 @@ Definition remaining (f' : func) : bool :=
   let dk := map skey_of (filter versioned (all_defs f')) in
   let T := infer f' in
   forallb (fun s => negb (versioned s) || existsb (skey_eqb (skey_of s)) dk) (all_uses f') &&
-  forallb (block_ok T) (f_blocks f') && forallb (edge_check f' T) (f_edges f') && entry_ok f' T &&
-  forallb (fun b => forallb (phi_arity_ok f' b) (b_phis b)) (f_blocks f').
+  forallb (block_ok T) (f_blocks f') && forallb (edge_check f' T) (f_edges f') && entry_ok f' T.
 
 Theorem ssa_correct_partial f e :
   cfg_inv (f_cfg f) = true -> g_entry (f_cfg f) = Some e -> erase_func f = f -> semi_nca_ok (f_cfg f) ->
   exists f', ssa_model f = Ok f' /\
              erase_func f' = f /\ func_eqb (erase_func f') f = true /\ struct_ok f' = true /\
              NoDup (map skey_of (filter versioned (all_defs f'))) /\
+             forallb (fun b => forallb (phi_arity_ok f' b) (b_phis b)) (f_blocks f') = true /\
              ssa_check f f' = remaining f'.
 Proof.
   intros Hinv He Hf Hsn. destruct (ssa_total_partial f e Hinv He Hsn) as [f' [Em He']]. rewrite Hf in He'.
@@ -159,9 +159,14 @@ Proof.
   { rewrite <- struct_ok_erase, He'. apply cfg_inv_struct. assumption. }
   assert (Hnd : NoDup (map skey_of (filter versioned (all_defs f')))).
   { apply (ssa_model_single_def f f' Em). rewrite <- Hf. apply erased_defs_unv. }
-  split; [exact Heq|]. split; [exact Hst|]. split; [exact Hnd|].
-  unfold ssa_check, check_typing, defs_ok, remaining. rewrite Heq, Hst, (NoDup_nodup_keys _ Hnd). cbn [andb].
-  reflexivity.
+  assert (Har : forallb (fun b => forallb (phi_arity_ok f' b) (b_phis b)) (f_blocks f') = true).
+  { apply (ssa_model_arity f f' Em).
+    - intros b Hb. rewrite <- Hf in Hb. unfold f_blocks, erase_func in Hb. cbn [f_cfg erase_cfg g_blocks] in Hb.
+      apply in_map_iff in Hb. destruct Hb as [b0 [<- _]]. reflexivity.
+    - exact (wf_enodup _ (cfg_inv_wf _ Hinv)). }
+  split; [exact Heq|]. split; [exact Hst|]. split; [exact Hnd|]. split; [exact Har|].
+  unfold ssa_check, check_typing, defs_ok, remaining. rewrite Heq, Hst, (NoDup_nodup_keys _ Hnd), Har. cbn [andb].
+  rewrite andb_true_r. reflexivity.
 Qed.
 
 (* hence, under semi_nca_ok, completeness for f is exactly `remaining` of the model's output *)
@@ -170,6 +175,17 @@ Corollary ssa_correct_reduced f e :
   (exists f', ssa_model f = Ok f' /\ ssa_check f f' = true) <->
   (exists f', ssa_model f = Ok f' /\ remaining f' = true).
 Proof.
-  intros Hinv He Hf Hsn. destruct (ssa_correct_partial f e Hinv He Hf Hsn) as (f' & Em & _ & _ & _ & _ & Hr).
+  intros Hinv He Hf Hsn. destruct (ssa_correct_partial f e Hinv He Hf Hsn) as (f' & Em & _ & _ & _ & _ & _ & Hr).
   split; intros (f'' & Em' & H); rewrite Em in Em'; injection Em' as <-; exists f'; (split; [exact Em|congruence]).
 Qed.
+
+(* ---------------------------------------------------------------- what is still open *)
+(* With SsaIdfModel.model_idf_covered, SsaIdf.no_phi_agree and SsaIdf.no_phi_entry the dominance-frontier content of the
+   completeness argument is proved.  What is NOT proved is the renaming invariant that connects it to the
+   validator: "for every reachable block b, the scope stack of ScalarVersioning at the end of the visit of b maps
+   every non-local name to the version installed by its nearest defining dominator of b, each block is renamed
+   exactly once, and the final program carries exactly those versions" -- from which block_ok / edge_check /
+   entry_ok of a typing follow by no_phi_agree, and then `infer` must find such a typing.  The statement: *)
+Definition ssa_remaining_open : Prop :=
+  forall f e, cfg_inv (f_cfg f) = true -> g_entry (f_cfg f) = Some e -> erase_func f = f -> semi_nca_ok (f_cfg f) ->
+  exists f', ssa_model f = Ok f' /\ remaining f' = true.
